@@ -1,6 +1,7 @@
 package harness
 
 import (
+	"os"
 	"bytes"
 	"fmt"
 	"sort"
@@ -10,6 +11,7 @@ import (
 	"time"
 
 	"github.com/anishathalye/porcupine"
+	"github.com/quickfixgo/quickfix/verifsim/simnet"
 	"github.com/quickfixgo/quickfix/verifsim/simsync"
 
 	"verifsim/wire"
@@ -37,6 +39,8 @@ type c02op struct {
 	err    string
 }
 
+var schedTrace = os.Getenv("VERIF_SCHEDTRACE") != ""
+
 func runC02(env *Env, tier string) {
 	ch := env.Ch
 	c := DrawBaseCfg(env)
@@ -54,6 +58,12 @@ func runC02(env *Env, tier string) {
 		env.OnCleanup(func() { keeper.Close() })
 		c.StoreDir = dsn
 	}
+	// In a share of the runs the (re)logon itself happens under the scheduler, racing with the senders:
+	// with ResetOnLogon or a ResetSeqNumFlag the store is reset while sends are in progress.
+	logonRace := ch.Chance("logonrace", 1, 3)
+	if logonRace {
+		c.ResetOnLogon = ch.Chance("resetonlogon", 1, 3)
+	}
 	s := StartSut(env, c)
 	p := s.P
 	a := NewAdv(s, 30, AdvOpts{HonestLogon: true})
@@ -67,6 +77,13 @@ func runC02(env *Env, tier string) {
 	}
 	p.Collect()
 	histEnd := a.engS() - 1
+	raceReset := false
+	if logonRace {
+		raceReset = c.BeginString >= "FIX.4.1" && ch.Chance("raceresetflag", 1, 2)
+		p.Drop()
+		p.EP = nil
+		env.Stat("probe_logon_under_scheduler")
+	}
 	startN := env.EventN()
 
 	// ---- interleaving mode on ----
@@ -122,8 +139,17 @@ func runC02(env *Env, tier string) {
 		}
 		stims = append(stims, st)
 	}
+	if logonRace {
+		// the connect and the Logon are the first two stimuli
+		if c.Initiator {
+			stims = append([]stim{{kind: 12}, {kind: 13}}, stims...)
+		} else {
+			stims = append([]stim{{kind: 10}, {kind: 11}}, stims...)
+		}
+	}
 	var switches []string
 	var rrNs []int
+	waited := 0
 	interleaved := false
 	last := ""
 	deadlock := false
@@ -137,7 +163,7 @@ func runC02(env *Env, tier string) {
 			}
 		}
 		nopt := len(parked)
-		stimOK := !sessionParked && len(stims) > 0 && p.Connected()
+		stimOK := !sessionParked && len(stims) > 0 && (p.Connected() || stims[0].kind == 10 || stims[0].kind == 12)
 		if stimOK {
 			nopt++
 		}
@@ -158,6 +184,13 @@ func runC02(env *Env, tier string) {
 		if pick < 0 {
 			pick = ch.Choose("pick", nopt)
 		}
+		if schedTrace {
+			var d []string
+			for _, o := range sched.AllParked() {
+				d = append(d, fmt.Sprintf("%s@%s(%s)", o.Name, o.Site, o.Kind))
+			}
+			env.Rec("sched", "pick", fmt.Sprintf("%d/%d stimOK=%v all=%v", pick, nopt, stimOK, d), false)
+		}
 		if pick < len(parked) {
 			t := parked[pick]
 			if t.Name != last {
@@ -177,8 +210,99 @@ func runC02(env *Env, tier string) {
 		// a stimulus for the (idle) session
 		st := stims[0]
 		stims = stims[1:]
-		p.OutSeq = a.engT()
+		if st.kind < 10 {
+			p.OutSeq = a.engT()
+		}
 		switch st.kind {
+		case 10: // transport connection (the acceptor's connection handler waits for the first message)
+			ep, err := s.W.DriverDial(c.Port)
+			if err != nil {
+				env.Fatalf("dial: %v", err)
+			}
+			p.EP = ep
+			p.Conn++
+			env.Rec("peer>:stim", "connect", "", true)
+		case 11: // the Logon, optionally asking for a sequence reset
+			if raceReset || c.ResetOnLogon {
+				p.OutSeq = 1
+			} else {
+				p.OutSeq = a.engT()
+			}
+			b, _ := p.Build("A", p.LogonBody(c.HeartBtInt, raceReset), MsgOpt{})
+			p.EP.Feed(b)
+			env.Rec("peer>:stim", "logon", fmt.Sprintf("reset=%v", raceReset), true)
+			// The connection handler first hands the connection to the session (admin channel) and then
+			// the Logon (message channel). The session takes the connection before any sender runs again:
+			// otherwise a sender's wake-up signal and the Logon would both be ready for the session's
+			// select at once and Go, not the simulator, would choose (rule R1).
+			for k := 0; k < 50; k++ {
+				env.Settle()
+				var st *simsync.Task
+				for _, t := range sched.AllParked() {
+					if t.Name == "session" {
+						st = t
+					}
+				}
+				if st == nil || (k > 0 && st.Kind == "wake") {
+					break
+				}
+				sched.Resume(st)
+			}
+		case 12: // time passes until the engine dials again; every advance ends at the first park
+			select {
+			case <-sched.ParkSignal():
+			default:
+			}
+			select {
+			case <-time.After(time.Second):
+			case <-sched.ParkSignal():
+			}
+			env.Settle()
+			// The dialling goroutine talks to the session twice (is it session time? then: here is the
+			// connection). The session runs alone until it has taken the second message, so that a sender's
+			// wake-up signal and the connection are never both ready for its select (rule R1).
+			var live *simnet.Endpoint
+			for k := 0; k < 50; k++ {
+				for _, o := range s.W.TakeDialled() {
+					if !o.IsClosed() {
+						live = o
+					}
+				}
+				var st *simsync.Task
+				for _, t := range sched.AllParked() {
+					if t.Name == "session" {
+						st = t
+					}
+				}
+				if st == nil || (live != nil && st.Kind == "wake") {
+					break
+				}
+				sched.Resume(st)
+				env.Settle()
+			}
+			if live != nil {
+				p.EP = live
+				p.Conn++
+				env.Rec("peer>:stim", "accepted", "", true)
+			} else {
+				waited++
+				if waited > 40 {
+					env.Fatalf("the initiator did not dial again")
+				}
+				stims = append([]stim{{kind: 12}}, stims...)
+			}
+		case 13: // the answer to the engine's Logon, optionally with an unsolicited ResetSeqNumFlag
+			p.Collect()
+			lg, ok := LastOfType(p.Recv, "A")
+			reset := raceReset || (ok && lg.Conn == p.Conn && lg.Str(141) == "Y")
+			if reset {
+				p.OutSeq = 1
+			} else {
+				p.OutSeq = a.engT()
+			}
+			b, _ := p.Build("A", p.LogonBody(c.HeartBtInt, reset), MsgOpt{})
+			p.EP.Feed(b)
+			env.Rec("peer>:stim", "logon-answer", fmt.Sprintf("reset=%v", reset), true)
 		case 0: // test request -> heartbeat on the session goroutine
 			b, _ := p.Build("1", []wire.Field{wire.F(112, "T"+p.NextID())}, MsgOpt{})
 			p.EP.Feed(b)
@@ -248,44 +372,67 @@ func runC02(env *Env, tier string) {
 	env.Nontrivial = interleaved
 }
 
-// judgeC02 evaluates invariants (i)-(vi) over everything recorded after event startN.
+// judgeC02 evaluates invariants (i)-(vi) over everything recorded after event startN. Sequence-number
+// epochs are delimited by the store's Reset calls.
 func judgeC02(env *Env, s *Sut, c EngineCfg, ops []c02op, startN int, rrNs []int) {
 	type sv struct {
-		n, num int
-		msg    []byte
-		task   string
+		n, num, epoch int
+		msg           []byte
+		task          string
 	}
-	var saves []sv
+	var calls []StoreCall
 	for _, sr := range s.E.SF.All {
-		for _, call := range sr.Snapshot() {
-			if call.Err != "" {
-				continue
-			}
-			switch call.Op {
-			case "SaveIncr":
-				saves = append(saves, sv{call.N, call.A, call.Msg, call.Task})
-			case "IncrSender":
-				saves = append(saves, sv{call.N, call.A - 1, nil, call.Task})
-			}
+		calls = append(calls, sr.Snapshot()...)
+	}
+	sort.Slice(calls, func(i, j int) bool { return calls[i].N < calls[j].N })
+	var saves []sv
+	var resetNs []int
+	epoch := 0
+	for _, call := range calls {
+		if call.Err != "" {
+			continue
+		}
+		switch call.Op {
+		case "Reset":
+			epoch++
+			resetNs = append(resetNs, call.N)
+		case "SaveIncr":
+			saves = append(saves, sv{call.N, call.A, epoch, call.Msg, call.Task})
+		case "IncrSender":
+			saves = append(saves, sv{call.N, call.A - 1, epoch, nil, call.Task})
 		}
 	}
-	sort.Slice(saves, func(i, j int) bool { return saves[i].n < saves[j].n })
-	// (i) the numbers handed out are n, n+1, n+2, ... without gap or repeat
+	epochAt := func(n int) int {
+		e := 0
+		for _, r := range resetNs {
+			if r < n {
+				e++
+			}
+		}
+		return e
+	}
+	// (i) the numbers handed out in one epoch are n, n+1, n+2, ... without gap or repeat; a new epoch starts at 1
 	for i := 1; i < len(saves); i++ {
-		if saves[i].num != saves[i-1].num+1 {
-			env.Violate("C02/numbering", "numbers handed out in store-call order: ... %d (task %s), then %d (task %s)", saves[i-1].num, saves[i-1].task, saves[i].num, saves[i].task)
+		if saves[i].epoch == saves[i-1].epoch {
+			if saves[i].num != saves[i-1].num+1 {
+				env.Violate("C02/numbering", "numbers handed out in store-call order: ... %d (task %s), then %d (task %s)", saves[i-1].num, saves[i-1].task, saves[i].num, saves[i].task)
+				return
+			}
+		} else if saves[i].num != 1 {
+			env.Violate("C02/numbering", "first number handed out after a reset is %d (task %s), the previous epoch ended at %d", saves[i].num, saves[i].task, saves[i-1].num)
 			return
 		}
 	}
-	savedAt := map[int]sv{}
+	type key struct{ epoch, num int }
+	savedAt := map[key]sv{}
 	for _, x := range saves {
-		savedAt[x.num] = x
+		savedAt[key{x.epoch, x.num}] = x
 	}
 	// wire
 	for _, cr := range s.CL.All() {
 		ws, _ := cr.Snapshot()
 		lastFirst := 0
-		inReplay := false
+		lastEpoch := -1
 		replaySeen := false
 		for _, w := range ws {
 			if !w.OK {
@@ -293,14 +440,15 @@ func judgeC02(env *Env, s *Sut, c EngineCfg, ops []c02op, startN int, rrNs []int
 			}
 			m := w.Msg
 			if m.PossDup() {
-				inReplay = true
 				replaySeen = true
 				continue
 			}
 			n := m.Seq()
-			// (ii) first-time transmissions carry increasing numbers
-			if m.Type() == "A" && m.Str(141) == "Y" {
+			ep := epochAt(w.N)
+			// (ii) first-time transmissions carry increasing numbers within an epoch
+			if ep != lastEpoch {
 				lastFirst = 0
+				lastEpoch = ep
 			}
 			if n <= lastFirst {
 				env.Violate("C02/wire-order", "first-time transmission 34=%d after 34=%d on connection %d", n, lastFirst, cr.ID)
@@ -309,9 +457,9 @@ func judgeC02(env *Env, s *Sut, c EngineCfg, ops []c02op, startN int, rrNs []int
 			lastFirst = n
 			// (iv) persisted, byte-identical, before it reached the wire
 			if !c.PersistOff {
-				x, ok := savedAt[n]
+				x, ok := savedAt[key{ep, n}]
 				if !ok {
-					env.Violate("C02/sent-unpersisted", "number %d reached the wire without having been saved", n)
+					env.Violate("C02/sent-unpersisted", "number %d reached the wire without having been saved in the current sequence-number epoch (a reset happened in between?)", n)
 					return
 				}
 				if x.n > w.N {
@@ -323,13 +471,9 @@ func judgeC02(env *Env, s *Sut, c EngineCfg, ops []c02op, startN int, rrNs []int
 					return
 				}
 			}
-			_ = inReplay
 		}
-		// (v) no first-time message between the replayed messages answering one ResendRequest:
-		// every maximal stretch of PossDup writes triggered by one request is contiguous
+		// (v) no first-time message between the replayed messages answering one ResendRequest
 		if replaySeen {
-			// find stretches: a first-time write strictly between two PossDup writes that belong to the
-			// same reply (no ResendRequest arrived in between)
 			type pos struct {
 				n   int
 				dup bool
@@ -345,7 +489,6 @@ func judgeC02(env *Env, s *Sut, c EngineCfg, ops []c02op, startN int, rrNs []int
 				if seqv[i].dup {
 					continue
 				}
-				// first-time write at i; PossDup before and after?
 				prevDup, nextDup := -1, -1
 				for j := i - 1; j >= 0; j-- {
 					if seqv[j].dup {
@@ -362,8 +505,6 @@ func judgeC02(env *Env, s *Sut, c EngineCfg, ops []c02op, startN int, rrNs []int
 				if prevDup < 0 || nextDup < 0 {
 					continue
 				}
-				// same reply: no ResendRequest fed between the two PossDup writes, and the later one
-				// continues the earlier one's coverage
 				sameReply := true
 				for _, rn := range rrNs {
 					if rn > seqv[prevDup].n && rn < seqv[nextDup].n {
@@ -377,26 +518,30 @@ func judgeC02(env *Env, s *Sut, c EngineCfg, ops []c02op, startN int, rrNs []int
 			}
 		}
 	}
-	// (iii) while the session stays logged on every assigned number is transmitted
+	// (iii) while the session stays logged on every assigned number is transmitted: judged for the
+	// numbers assigned after the last logon completed, if the session is still logged on at the end
 	if s.P.Connected() {
-		onWire := map[int]bool{}
+		onWire := map[key]bool{}
 		for _, cr := range s.CL.All() {
 			ws, _ := cr.Snapshot()
 			for _, w := range ws {
 				if w.OK && !w.Msg.PossDup() {
-					onWire[w.Msg.Seq()] = true
+					onWire[key{epochAt(w.N), w.Msg.Seq()}] = true
 				}
 			}
 		}
-		loggedOutDuring := false
+		lastLogon, loggedOut := startN, false
 		for _, ac := range s.E.App.Snapshot() {
+			if ac.N > startN && ac.Kind == "OnLogon" {
+				lastLogon, loggedOut = ac.N, false
+			}
 			if ac.N > startN && ac.Kind == "OnLogout" {
-				loggedOutDuring = true
+				loggedOut = true
 			}
 		}
-		if !loggedOutDuring {
+		if !loggedOut {
 			for _, x := range saves {
-				if x.n > startN && !onWire[x.num] {
+				if x.n > lastLogon && !onWire[key{x.epoch, x.num}] {
 					env.Violate("C02/never-transmitted", "number %d was assigned (task %s) but never reached the wire although the session stayed logged on", x.num, x.task)
 					return
 				}
@@ -405,14 +550,16 @@ func judgeC02(env *Env, s *Sut, c EngineCfg, ops []c02op, startN int, rrNs []int
 	}
 	// store agrees at quiescence
 	if st := s.E.Store(); st != nil && len(saves) > 0 {
-		hi := saves[len(saves)-1].num
-		if got := st.inner.NextSenderMsgSeqNum(); got != hi+1 {
-			env.Violate("C02/next-sender", "next outbound number %d, highest handed out %d", got, hi)
-			return
+		last := saves[len(saves)-1]
+		if last.epoch == len(resetNs) {
+			if got := st.inner.NextSenderMsgSeqNum(); got != last.num+1 {
+				env.Violate("C02/next-sender", "next outbound number %d, highest handed out %d", got, last.num)
+				return
+			}
 		}
 		if !c.PersistOff {
 			for _, x := range saves {
-				if x.n <= startN || x.msg == nil {
+				if x.n <= startN || x.msg == nil || x.epoch != len(resetNs) {
 					continue
 				}
 				got, err := st.inner.GetMessages(x.num, x.num)
@@ -442,12 +589,18 @@ func judgeC02(env *Env, s *Sut, c EngineCfg, ops []c02op, startN int, rrNs []int
 	cid := len(ops)
 	for _, ac := range apps {
 		if ac.Kind == "ToAdmin" && !ac.PossDup && ac.N > startN && ac.Type != "4" {
-			if x, ok := savedAt[ac.Seq]; ok && x.n > ac.N {
+			if x, ok := savedAt[key{epochAt(ac.N), ac.Seq}]; ok && x.n > ac.N {
 				hist = append(hist, porcupine.Operation{ClientId: cid, Input: 0, Call: int64(ac.N), Output: ac.Seq, Return: int64(x.n)})
 			}
 		}
 	}
-	if len(hist) > 0 && len(hist) <= 40 {
+	resetsInWindow := 0
+	for _, r := range resetNs {
+		if r > startN {
+			resetsInWindow++
+		}
+	}
+	if len(hist) > 0 && len(hist) <= 40 && resetsInWindow == 0 {
 		first := -1
 		for _, op := range hist {
 			if first < 0 || op.Output.(int) < first {
